@@ -39,15 +39,25 @@ def init_rules(model, R):
                 kws = {k.arg: k.value for k in s.keywords}
                 key = kws.get('key')
                 kname = (chain(env.expand(key)) or [''])[-1] if key is not None else None
+                kexp = env.expand(key) if key is not None else None
+                if (isinstance(kexp, ast.Lambda) and len(kexp.args.args) == 1 and isinstance(kexp.body, ast.Call) and not kexp.body.args
+                        and isinstance(kexp.body.func, ast.Attribute) and isinstance(kexp.body.func.value, ast.Attribute)
+                        and name_is(kexp.body.func.value.value, kexp.args.args[0].arg)):
+                    # lambda c: c._extent.longlex()  is the key function _longlex written in place
+                    side, meth = kexp.body.func.value.attr, kexp.body.func.attr
+                    kname = '_longlex' if (side, meth) == ('_extent', 'longlex') else f'lambda: {side}.{meth}()'
+                elif kname == '':
+                    kname = None
                 ok = (chain(s.args[0]) == [inst, '_concepts'] and kname == '_longlex' and 'reverse' not in kws and set(kws) == {'key'})
                 if 'reverse' in kws or kname != '_longlex':
                     found = f'key={kname}, reverse={src(kws.get("reverse"))}'
                 # sorted(<all members>, key=<a key function of this class>[, reverse=...]) is the recognised construct: its slots decide
-                parsed = chain(s.args[0]) == [inst, '_concepts'] and kname in ('_longlex', '_shortlex') and set(kws) <= {'key', 'reverse'}
+                parsed = (chain(s.args[0]) == [inst, '_concepts'] and kname is not None and (kname in ('_longlex', '_shortlex') or kname.startswith('lambda: '))
+                          and set(kws) <= {'key', 'reverse'})
         R.check(ok, 'ORDER', f, l, 'dindex = position in long-lexicographic order of all members',
                 f'for dindex, c in enumerate(sorted({inst}._concepts, key={inst}._longlex))', found,
                 extra={'note': 'reversed shortlex is a different order than longlex (ties within one size are ordered the same way)'},
-                strict=True if parsed else None)
+                strict=True if parsed else False)
         dv, cv = (t.id for t in l.target.elts)
         a = [s for s in l.body if isinstance(s, ast.Assign) and chain(s.targets[0]) == [cv, 'dindex']]
         R.check(len(a) == 1 and name_is(a[0].value, dv), 'ORDER', f, a[0] if a else l, 'dindex assigned from the enumeration', f'{cv}.dindex = {dv}')
